@@ -38,6 +38,16 @@ C15_REFUTES = {"S15a": "T_AddImpliesCommit", "S15b": "T_AddImpliesCommit",
                "S15c": "T_RejectWhenMust", "S15d": "T_AddImpliesCommit"}
 
 
+def _sort_cases(path):
+    """TLC's workers print CASE lines in a nondeterministic order; the drivers derive scenario numbers,
+    index assignment and random streams from the position, so fix the order."""
+    with open(path) as f:
+        lines = sorted(set(l for l in f if l.strip()))
+    with open(path, "w") as f:
+        f.writelines(lines)
+    return len(lines)
+
+
 def _tla_set(names):
     return "{" + ", ".join('"%s"' % n for n in names) + "}"
 
@@ -102,6 +112,7 @@ def run_c15(v):
     ncases = lib.write_cases(ideal["msgs"], "CASE", cases)
     if ncases == 0 or ncases != ideal.get("distinct"):
         raise lib.ToolError(f"MC_Validate printed {ncases} cases for {ideal.get('distinct')} states")
+    _sort_cases(cases)
 
     # MC, validator as built: must be refuted (documents the findings at design level, non-vacuity);
     # each single deviation must refute its theorem on its own.
@@ -212,6 +223,7 @@ def run_c16(v):
     ncases = lib.write_cases(gen["msgs"], "CASE", cases)
     if ncases == 0:
         raise lib.ToolError("Gen_Requests printed no cases")
+    ncases = _sort_cases(cases)
 
     trace = lib.outpath(v.prop, "robust.ndjson")
     timeout_ms = 10000 if quick else 20000
